@@ -500,6 +500,9 @@ class GraphicsTerminal:
                 res.message = resp_and_message[1].decode("utf-8")
                 res.is_ok = resp_and_message[1] == b"OK"
             for part in resp_and_message[0].split(b","):
+                if not part:
+                    # No keys at all, or a doubled/trailing comma.
+                    continue
                 try:
                     if part.startswith(b"i="):
                         res.image_id = int(part[2:])
